@@ -45,7 +45,8 @@ SERIES = ['net', 'heat', 'cool', 'pump', 'hp']
 def record(d, conv=econ.q15):
     ql = lambda xs: '[' + '; '.join(conv(x) for x in xs) + ']'
     parts = [f'l_econ := {qconv.zlit(d["econ"])}; l_enduse := {qconv.zlit(d["enduse"])}; l_plant := {qconv.zlit(d["plant"])}']
-    parts += [f'l_{k} := {conv(d[k])}' for k in FIELDS]
+    # the CHP allocation ratio enters through 1 - ratio (cancellation when the heat share is tiny): always exact
+    parts += [f'l_{k} := {qconv.q(qconv.F(d[k])) if k == "ratio" else conv(d[k])}' for k in FIELDS]
     parts.append(f'l_life := {int(d["life"])}%nat')
     parts += [f'l_{k} := {ql(d[k])}' for k in SERIES]
     parts += [f'l_elec_buy := {conv(d["elec_buy"])}; l_avg_pump := {conv(d["avg_pump"])}; l_avg_hp := {conv(d["avg_hp"])}; '
